@@ -642,7 +642,7 @@ def classify(ob, res, job):
     return 'other', job.props, 'other'
 
 
-def trim_cache(limit_mb=1500):
+def trim_cache(limit_mb=6000):
     d = os.path.join(WORK, 'cache')
     try:
         files = [(os.path.getmtime(os.path.join(d, f)), os.path.getsize(os.path.join(d, f)), os.path.join(d, f)) for f in os.listdir(d)]
